@@ -5,13 +5,26 @@ use a2lfile::{A2lError, A2lFile, Module};
 
 pub const FUEL_PER_BYTE: u64 = 512;
 
+/// memory a load may hold at its peak: a fixed allowance plus a generous multiple of the input size (tokens, model,
+/// layout records, decoded copies of the text together stay far below this; only amplification exceeds it)
+pub const MEM_BASE: usize = 192 << 20;
+pub const MEM_PER_BYTE: usize = 4096;
+
 fn with_fuel<T, F: FnOnce() -> T>(cx: &mut Cx, oracle: &str, what: &str, bytes: usize, f: F) -> Result<T, Violation> {
     let fuel = FUEL_PER_BYTE * (bytes as u64 + 64);
     a2lfile::verif_hooks::set_fuel(Some(fuel));
+    crate::memseam::reset();
     let r = guarded(cx, oracle, what, f);
+    let peak = crate::memseam::peak();
     let ticks = a2lfile::verif_hooks::ticks();
     a2lfile::verif_hooks::set_fuel(None);
     cx.evals += 1;
+    if peak > cx.max_peak_bytes {
+        cx.max_peak_bytes = peak;
+    }
+    if r.is_ok() && peak > MEM_BASE + MEM_PER_BYTE * bytes {
+        return Err(cx.fail(oracle, "memory-amplification", format!("{what}: {bytes} bytes of input made the call hold {} MiB at its peak (allowance: {} MiB + {MEM_PER_BYTE} bytes per input byte)", peak >> 20, MEM_BASE >> 20)));
+    }
     if r.is_ok() {
         let per_kib = ticks * 1024 / (bytes as u64 + 64);
         if per_kib > cx.max_ticks_per_kib {
@@ -23,25 +36,58 @@ fn with_fuel<T, F: FnOnce() -> T>(cx: &mut Cx, oracle: &str, what: &str, bytes: 
 
 pub type LoadResult = Result<(A2lFile, Vec<A2lError>), A2lError>;
 
+/// the diagnostics and the error value must be renderable (Display and Debug) without panic: that is how a caller
+/// gets to see them
+fn render<T>(cx: &mut Cx, oracle: &str, r: &Result<(T, Vec<A2lError>), A2lError>) -> Result<(), Violation> {
+    guarded(cx, oracle, "Display of the diagnostics", || {
+        let mut n = 0usize;
+        match r {
+            Ok((_, msgs)) => {
+                for m in msgs.iter().take(64) {
+                    n += m.to_string().len();
+                }
+            }
+            Err(e) => n += e.to_string().len() + format!("{e:?}").len(),
+        }
+        std::hint::black_box(n);
+    })
+}
+
+fn render_err<T>(cx: &mut Cx, oracle: &str, r: &Result<T, A2lError>) -> Result<(), Violation> {
+    guarded(cx, oracle, "Display of the error value", || {
+        if let Err(e) = r {
+            std::hint::black_box(e.to_string().len());
+        }
+    })
+}
+
 pub fn load_str(cx: &mut Cx, oracle: &str, text: &str, spec: Option<String>, strict: bool) -> Result<LoadResult, Violation> {
     let bytes = text.len() + spec.as_ref().map_or(0, String::len);
-    with_fuel(cx, oracle, "load_from_string", bytes, || a2lfile::load_from_string(text, spec, strict))
+    let r = with_fuel(cx, oracle, "load_from_string", bytes, || a2lfile::load_from_string(text, spec, strict))?;
+    render(cx, oracle, &r)?;
+    Ok(r)
 }
 
 pub fn load_fragment(cx: &mut Cx, oracle: &str, text: &str, spec: Option<String>) -> Result<Result<Module, A2lError>, Violation> {
     let bytes = text.len() + spec.as_ref().map_or(0, String::len);
-    with_fuel(cx, oracle, "load_fragment", bytes, || a2lfile::load_fragment(text, spec))
+    let r = with_fuel(cx, oracle, "load_fragment", bytes, || a2lfile::load_fragment(text, spec))?;
+    render_err(cx, oracle, &r)?;
+    Ok(r)
 }
 
 /// `total_bytes`: upper bound of the bytes reachable from this path (all files in the VFS)
 pub fn load_path(cx: &mut Cx, oracle: &str, path: &str, spec: Option<String>, strict: bool, total_bytes: usize) -> Result<LoadResult, Violation> {
     let bytes = total_bytes + spec.as_ref().map_or(0, String::len);
-    with_fuel(cx, oracle, "load", bytes, || a2lfile::load(path, spec, strict))
+    let r = with_fuel(cx, oracle, "load", bytes, || a2lfile::load(path, spec, strict))?;
+    render(cx, oracle, &r)?;
+    Ok(r)
 }
 
 pub fn load_fragment_path(cx: &mut Cx, oracle: &str, path: &str, spec: Option<String>, total_bytes: usize) -> Result<Result<Module, A2lError>, Violation> {
     let bytes = total_bytes + spec.as_ref().map_or(0, String::len);
-    with_fuel(cx, oracle, "load_fragment_file", bytes, || a2lfile::load_fragment_file(path, spec))
+    let r = with_fuel(cx, oracle, "load_fragment_file", bytes, || a2lfile::load_fragment_file(path, spec))?;
+    render_err(cx, oracle, &r)?;
+    Ok(r)
 }
 
 pub fn write_str(cx: &mut Cx, oracle: &str, file: &A2lFile) -> Result<String, Violation> {
